@@ -32,6 +32,13 @@ type engineImpl struct {
 
 	dbf, jf, wf, sf *os.File
 	client          *fakeClient
+
+	// crash window
+	crashing   bool
+	inSnap     bool
+	snaps      []crashSnap
+	opCount    int
+	commitSnap int // number of snapshots taken when the transaction's commit call had returned (-1: none)
 }
 
 var crcTable = crc64.MakeTable(crc64.ISO)
@@ -78,6 +85,13 @@ func (c *fakeClient) Stream(ctx context.Context, primaryURL string, nodeID uint6
 }
 
 func (m *engineImpl) Close() {
+	m.crashing = false
+	crashMu.Lock()
+	if crashActive == m {
+		crashActive = nil
+	}
+	crashMu.Unlock()
+	m.dropSnaps()
 	m.closeFiles()
 	if m.store != nil {
 		_ = m.store.Close()
@@ -121,6 +135,7 @@ func (m *engineImpl) openStore(role string) error {
 		}
 	}
 	st.Compress = m.c != nil && m.c.Flag("lz4")
+	st.OS = &crashOS{m: m}
 	if err := st.Open(); err != nil {
 		return err
 	}
@@ -223,11 +238,50 @@ func (m *engineImpl) Do(line string) string {
 		return "bad-op"
 	}
 	ctx := context.Background()
-	if m.exit != 0 && f[0] != "state" && f[0] != "ltx" && f[0] != "raw" {
+	if m.exit != 0 && f[0] != "state" && f[0] != "ltx" && f[0] != "raw" && f[0] != "crash-end" && f[0] != "crashpoint" {
 		return "exited"
 	}
 	atoi := func(s string) (int64, bool) { v, err := strconv.ParseInt(s, 10, 64); return v, err == nil }
+	m.opCount++
+	if m.crashing && f[0] != "crash-end" && f[0] != "commit-point" {
+		m.snapshot("op:" + f[0]) // boundary before each operation of the transaction
+	}
 	switch f[0] {
+	case "crash-begin": // open a crash window: every OS call / page write from now on is a crash point
+		if m.store == nil || m.crashing {
+			return "bad-op"
+		}
+		m.dropSnaps()
+		m.crashing, m.commitSnap = true, -1
+		crashMu.Lock()
+		crashActive = m
+		crashMu.Unlock()
+		return "ok"
+	case "commit-point": // the call that commits the transaction has just returned to SQLite
+		if !m.crashing {
+			return "bad-op"
+		}
+		m.commitSnap = len(m.snaps)
+		return "ok"
+	case "crash-end":
+		if !m.crashing {
+			return "bad-op"
+		}
+		m.snapshot("op:end")
+		m.crashing = false
+		crashMu.Lock()
+		crashActive = nil
+		crashMu.Unlock()
+		return fmt.Sprintf("n=%d", len(m.snaps))
+	case "crashpoint":
+		if len(f) != 2 {
+			return "bad-op"
+		}
+		k, ok := atoi(f[1])
+		if !ok {
+			return "bad-op"
+		}
+		return m.crashpoint(int(k))
 	case "open": // open primary|replica
 		if len(f) != 2 || m.store != nil {
 			return "bad-op"
